@@ -262,6 +262,18 @@ def check_discrimination(res, spec, count=True):
                 continue
             if ho == hb:
                 _fail(res, f"C18:hash:collision:{field}", f"configurations differing only in {field} ({spec[field]!r} vs {other[field]!r}) have the same hash", inp, ho)
+            # multi-step: the identity of a config object follows its CONTENT - ask for hash and file name, edit the object in place, ask again
+            try:
+                edited = make(spec)
+                edited.stable_hash_cfg()
+                edited.to_fname()
+                setattr(edited, field, getattr(make(other), field))
+                he, fe = edited.stable_hash_cfg(), edited.to_fname()
+                if he != ho or fe != o.to_fname():
+                    _fail(res, f"C18:hash:stale-after-edit:{field}", f"a configuration whose {field} was edited in place after its hash / file name had been asked for has hash {he} / name {fe}, "
+                          f"an equal fresh configuration has {ho} / {o.to_fname()}", inp, he)
+            except Exception as e:  # noqa: BLE001
+                _fail(res, "C18:hash:raised", f"in-place edit of {field}: {type(e).__name__}: {e}", inp, None)
             if field != "n_mazes":
                 try:
                     if o == base:
